@@ -383,36 +383,42 @@ pub fn generate_salt(property: &str, r: &mut SimRng, seed: u64) -> Scenario {
 // C18 expressions, requests, responses, events
 
 fn make_function(code: u64) -> Function {
-    match code % 6 {
-        0 => Function::from(code / 6 % 8),
-        1 => Function::from(1000 + code / 6 % 1000),
-        2 => Function::new_named(&format!("fn{}", code / 6 % 5)),
+    match code % 8 {
+        0 => Function::from(code / 8 % 8),
+        1 => Function::from([1000u64, 65535, 65536, u32::MAX as u64, u64::MAX, 23, 24, 255, 256][(code / 8 % 9) as usize]),
+        2 => Function::new_named(&format!("fn{}", code / 8 % 5)),
         3 => Function::new_named("add"),
         4 => Function::new_known(2, Some("add".to_string())), // same text as the named one above, different function
-        _ => Function::new_static_named("staticFn"), // a named function declared as a constant
+        5 => Function::new_static_named("staticFn"), // a named function declared as a constant
+        6 => Function::new_named(""),               // the empty name
+        _ => Function::new_named(["2", "\u{e9}t\u{e9}", "a b", "add "][(code / 8 % 4) as usize]), // names that look like numbers, non-ASCII, spaces
     }
 }
 /// are the functions built from two codes the same function? (decided from how they were built: both
 /// known with the same number, or both named with the same text - never by the library's own ==)
 fn same_function(a: u64, b: u64) -> bool {
     let key = |code: u64| -> (u8, u64, String) {
-        match code % 6 {
-            0 => (0, code / 6 % 8, String::new()),
-            1 => (0, 1000 + code / 6 % 1000, String::new()),
-            2 => (1, 0, format!("fn{}", code / 6 % 5)),
+        match code % 8 {
+            0 => (0, code / 8 % 8, String::new()),
+            1 => (0, [1000u64, 65535, 65536, u32::MAX as u64, u64::MAX, 23, 24, 255, 256][(code / 8 % 9) as usize], String::new()),
+            2 => (1, 0, format!("fn{}", code / 8 % 5)),
             3 => (1, 0, "add".to_string()),
             4 => (0, 2, String::new()),
-            _ => (1, 0, "staticFn".to_string()),
+            5 => (1, 0, "staticFn".to_string()),
+            6 => (1, 0, String::new()),
+            _ => (1, 0, ["2", "\u{e9}t\u{e9}", "a b", "add "][(code / 8 % 4) as usize].to_string()),
         }
     };
     key(a) == key(b)
 }
 fn make_parameter(code: u64) -> Parameter {
-    match code % 4 {
-        0 => Parameter::from(code / 4 % 6),
-        1 => Parameter::new_named(&format!("p{}", code / 4 % 4)),
+    match code % 6 {
+        0 => Parameter::from(code / 6 % 6),
+        1 => Parameter::new_named(&format!("p{}", code / 6 % 4)),
         2 => Parameter::new_known(1, Some("blank".to_string())),
-        _ => Parameter::new_named("blank"),
+        3 => Parameter::new_named("blank"),
+        4 => Parameter::new_named(""),
+        _ => Parameter::from([255u64, 256, 65536, u64::MAX][(code / 6 % 4) as usize]),
     }
 }
 fn arid(code: u64) -> ARID {
